@@ -390,6 +390,19 @@ func (c *evalCtx) evalCall(n *ast.CallExpr) Value {
 		c.inOld = true
 		defer func() { c.inOld = saved }()
 		return c.eval(n.Args[0])
+	case "callghost":
+		// callghost("pkg.Recv.Fn", k, "name"): ghost result `name` of the k-th contracted call to Fn
+		if c.frame == nil {
+			panic(execError{"contract: callghost() is only available in ghost initialisers"})
+		}
+		nm := c.eval(n.Args[0]).(VStr).T.Name
+		k := c.intOf(c.eval(n.Args[1]))
+		gn := c.eval(n.Args[2]).(VStr).T.Name
+		v, ok := c.frame.callResults[fmt.Sprintf("%s#%d.%s", nm, k.Val.Int64(), gn)]
+		if !ok {
+			panic(execError{"contract: no recorded ghost " + gn + " of call " + nm})
+		}
+		return v
 	case "callresult":
 		if c.frame == nil {
 			panic(execError{"contract: callresult() is only available in ghost initialisers"})
@@ -893,9 +906,9 @@ func (c *evalCtx) callRecDef(rd *RecDef, n *ast.CallExpr) Value {
 			if !ok {
 				panic(execError{"contract: " + rd.Name + ": argument " + rd.Params[i] + " must be a slice"})
 			}
-			arrs := c.seqToArrays(sl, w)
+			arrs, off := c.seqToArrays(sl, w)
 			args = append(args, arrs...)
-			args = append(args, sl.Len)
+			args = append(args, off, sl.Len)
 			continue
 		}
 		fl := c.flat(v)
@@ -941,7 +954,13 @@ func (c *evalCtx) seq2ToArrays(sl VSlice) (*Term, *Term) {
 }
 
 // seqToArrays turns a slice into `width` SMT arrays indexed from 0.
-func (c *evalCtx) seqToArrays(sl VSlice, width int) []*Term {
+func (c *evalCtx) seqToArrays(sl VSlice, width int) ([]*Term, *Term) {
+	arrs, off := c.seqToArrays0(sl, width)
+	return arrs, off
+}
+
+// seqToArrays0 returns arrays and the offset at which the sequence starts inside them.
+func (c *evalCtx) seqToArrays0(sl VSlice, width int) ([]*Term, *Term) {
 	boundSeq++
 	j := Bound(fmt.Sprintf("j$%d", boundSeq), SInt)
 	var elem Value
@@ -972,7 +991,7 @@ func (c *evalCtx) seqToArrays(sl VSlice, width int) []*Term {
 				arrs[k] = Store(arrs[k], Int64C(i), fl[k])
 			}
 		}
-		return arrs
+		return arrs, Int64C(0)
 	}
 	leaves := c.flat(elem)
 	if len(leaves) != width {
@@ -980,22 +999,34 @@ func (c *evalCtx) seqToArrays(sl VSlice, width int) []*Term {
 	}
 	arrs := make([]*Term, width)
 	fast := true
+	// fast path: element j is select(A, off + j) for one offset: pass the arrays and the offset
+	var off *Term
 	for k, lf := range leaves {
-		if lf.Op == "select" && lf.Args[1] == j && !containsTerm(lf.Args[0], j) {
-			arrs[k] = lf.Args[0]
-		} else {
-			fast = false
+		if lf.Op == "select" && !containsTerm(lf.Args[0], j) {
+			var o *Term
+			switch {
+			case lf.Args[1] == j:
+				o = Int64C(0)
+			case lf.Args[1] == Add(sl.Off, j):
+				o = sl.Off
+			}
+			if o != nil && (off == nil || off == o) {
+				off = o
+				arrs[k] = lf.Args[0]
+				continue
+			}
 		}
+		fast = false
 	}
 	if fast {
-		return arrs
+		return arrs, off
 	}
 	// the same sequence value always gets the same array constants (otherwise two mentions of one
 	// sequence would be two arrays that agree only on [0,len), which recursive specs cannot relate)
 	seqObj := c.e.sliceSeq(c.s, sl)
 	key := fmt.Sprintf("%p|%d|%d|%d", seqObj, sl.Off.id, sl.Len.id, width)
 	if cached, ok := c.e.seqArrays[key]; ok {
-		return cached
+		return cached, Int64C(0)
 	}
 	// outer bound variables (the sequence is mentioned under a quantifier): the arrays become a family
 	// indexed by that variable
@@ -1039,7 +1070,7 @@ func (c *evalCtx) seqToArrays(sl VSlice, width int) []*Term {
 	default:
 		panic(execError{"contract: a sequence under two nested quantifiers cannot be passed to a recursive specification function"})
 	}
-	return arrs
+	return arrs, Int64C(0)
 }
 
 // isRecursionIndex: an int parameter that the body changes in its recursive calls (i+1, k-1).
@@ -1094,6 +1125,8 @@ func (e *Engine) compileRecDef(rd *RecDef) {
 				arrs[k] = Bound(fmt.Sprintf("%s$a%d", p, k), SArr)
 				decl = append(decl, fmt.Sprintf("(%s (Array Int Int))", smtName(arrs[k].Name)))
 			}
+			offB := Bound(p+"$off", SInt)
+			decl = append(decl, fmt.Sprintf("(%s Int)", smtName(offB.Name)))
 			ln := Bound(p+"$len", SInt)
 			decl = append(decl, fmt.Sprintf("(%s Int)", smtName(ln.Name)))
 			width := w
@@ -1106,7 +1139,7 @@ func (e *Engine) compileRecDef(rd *RecDef) {
 					el[k] = VInt{Select(arrs[k], i)}
 				}
 				return VSpecTuple{el}
-			}}, Off: Int64C(0), Len: ln, Cap: ln}
+			}}, Off: offB, Len: ln, Cap: ln}
 			continue
 		}
 		if w == 1 {
